@@ -5,6 +5,7 @@ import (
 	"fmt"
 	"github.com/multiformats/go-multiaddr"
 	"strings"
+	"unicode/utf8"
 
 	"github.com/ipfs/go-cid"
 	"github.com/ipld/go-ipld-prime/codec/dagjson"
@@ -254,6 +255,13 @@ func runC03(r *simkit.Run, c Cfg) {
 			topic = raw
 			r.Probe("non-utf8-topic-accepted-by-publisher")
 		}
+	}
+	if c.Case < 0 && k.topic && !strings.ContainsRune(topic, utf8.RuneError) && utf8.ValidString(topic) && tp.Chance(1, 6, "oddTopic") {
+		// valid UTF-8, unusual characters: control characters, DEL, quotes
+		// and backslashes, a rune beyond the basic plane that is not
+		// printable, a line separator
+		topic = []string{"/indexer/\x07bell\x0bvt/mainnet", "/indexer/\x00nul\x1f/\x7f", "/indexer/\"quoted\"\\back/mainnet", "/indexer/\U000e0001tag/\u2028ls", "/indexer/\tt\nn\rr/mainnet"}[tp.Choose(5, "oddTopic.i")]
+		r.Probe("topic-with-unusual-characters")
 	}
 	pub := w.NewPublisher(PubOpts{Name: "P1", Ident: p1, NAds: 1, Discovery: k.discovery, Hosts: []string{"10.0.0.1:3104"}, Topic: topic})
 	sub := w.NewSubscriber()
